@@ -494,6 +494,13 @@ def _cat_nl_step(acc, line):
 cat_nl = Measure('cat_nl', '', _cat_nl_step, Str)       # every line followed by a line break
 
 
+def _none_equal_step(ok, line, marker):
+    return ok and line != marker
+
+
+none_equal = Measure('none_equal', True, _none_equal_step, Bool)     # none_equal(lines, marker)
+
+
 def join_lemma(lines):
     """'\\n'.join(lines) + '\\n' is every line followed by a line break (true of every non-empty list; carried as
     an invariant where the list is built because the two are different folds)"""
@@ -523,7 +530,8 @@ M.contract(P_RS + ':_sdv_from_lines', params=dict(lines=LINES),
                                                                   split_events(trace)[0][1]['s'] == cat_nl(lines),
                                                                   'internal'),
                # ... which is what callers see as the ghost event of this call
-               'split-event': (lambda lines, trace: trace.append(('split', {'s': cat_nl(lines)})), 'effect'),
+               'split-event': (lambda lines, trace: trace.append(('split', {'s': cat_nl(lines), 'lines': lines})),
+                               'effect'),
            },
            raises_only=())
 
@@ -560,19 +568,25 @@ M.contract(P_RS + ':HereDocParser._parse_contents', params=dict(marker=Str, toke
                    len(split_events(trace)) == 1
                    and split_events(trace)[0][1]['s'] == old[1][old[0]:_hd_pos(token_parser) - len(marker)],
                    'internal'),
+               # the marker line that ends the document is the FIRST line that is exactly the marker: the contents
+               # are lines each followed by a line break (clause above + invariant), none of which is the marker
+               'no-contents-line-is-the-marker': (
+                   lambda marker, trace: none_equal(split_events(trace)[0][1]['lines'], marker)
+                   and cat_nl(split_events(trace)[0][1]['lines']) == split_events(trace)[0][1]['s'], 'internal'),
                # ... which is what callers see as the ghost event of this call
                'split-event': (lambda marker, token_parser, old, trace: trace.append(
                    ('split', {'s': old[1][old[0]:_hd_pos(token_parser) - len(marker)]})), 'effect'),
            },
            raises_only=())
 M.loop(P_RS + ':HereDocParser._parse_contents', 0,
-       invariant=lambda token_parser, here_doc, old:
+       invariant=lambda marker, token_parser, here_doc, old:
        _hd_source(token_parser) == old[1]
        and old[0] <= _hd_pos(token_parser) and _hd_pos(token_parser) <= len(old[1])
        and (cat_nl(here_doc) == old[1][old[0]:_hd_pos(token_parser)]
             or (_hd_pos(token_parser) == len(old[1])
                 and cat_nl(here_doc) == old[1][old[0]:_hd_pos(token_parser)] + '\n'))
        and join_lemma(here_doc)
+       and none_equal(here_doc, marker)
        and (cat_nl(here_doc) == '' or cat_nl(here_doc).endswith('\n')),
        modifies=dict(_TS_FRAME, here_doc=LINES, line='local'))
 
